@@ -316,9 +316,12 @@ func (m *Module) stopAllTasks(reports chan *report) {
 	verifPoint("modules.stop.waiting", m.Name)
 
 	// wait for results
+	var err error
 	select {
 	case <-m.stopComplete:
-		// Complete!
+		// Complete! The stop function has returned and hands over its result
+		// right away: wait for it in order to not miss it.
+		err = <-stopFnError
 	case <-time.After(moduleStopTimeout):
 		log.Warningf(
 			"%s: timed out while waiting for stopfn/workers/tasks to finish: stopFn=%v workers=%d tasks=%d microtasks=%d, continuing shutdown...",
@@ -328,21 +331,21 @@ func (m *Module) stopAllTasks(reports chan *report) {
 			atomic.LoadInt32(m.taskCnt),
 			atomic.LoadInt32(m.microTaskCnt),
 		)
+		// Check if the stop function has returned in the meantime.
+		select {
+		case err = <-stopFnError:
+		default:
+		}
 	}
 
 	// Check for stop fn status.
-	var err error
-	select {
-	case err = <-stopFnError:
-		if err != nil {
-			// Set error as module error.
-			m.Error(
-				fmt.Sprintf("%s:stop-failed", m.Name),
-				fmt.Sprintf("Stopping module %s failed", m.Name),
-				fmt.Sprintf("Failed to stop module: %s", err.Error()),
-			)
-		}
-	default:
+	if err != nil {
+		// Set error as module error.
+		m.Error(
+			fmt.Sprintf("%s:stop-failed", m.Name),
+			fmt.Sprintf("Stopping module %s failed", m.Name),
+			fmt.Sprintf("Failed to stop module: %s", err.Error()),
+		)
 	}
 
 	// Always set to offline in order to let other modules shutdown in order.
